@@ -9,26 +9,32 @@ META = {
             "unique function of iteration i, DL_min[i] is NaN iff no variant has a non-NaN description length; otherwise DL_min, function string, parameters and "
             "the three terms of row i are those of ONE variant of that unique attaining the minimum of nll+codelen+aifeyn over its non-NaN variants, and no other "
             "row is touched; R2 — the NaN mask, the sort and the re-indexing: exactly the uniques with a non-NaN DL get a row (a bijection), rows are in "
-            "non-decreasing DL order, every column of a row (DL, three terms, parameters, function) belongs to the same unique. The relative-probability tail "
-            "(duplicate suppression loop, exp, normalisation) and the per-rank file concatenation are decided by the bounded stand-in only (synthetic tables with "
-            "NaN/inf/ties, 1-4 ranks, through the real combine stage), which is not counted as proved.",
+            "non-decreasing DL order, every column of a row (DL, three terms, parameters, function) belongs to the same unique; R3 — the relative "
+            "probabilities: with SUP(k) :<=> an earlier row has exactly the same likelihood and E(k) = 0 if SUP(k) or DL_k - DL_0 = +inf else exp(-(DL_k - DL_0)), for a "
+            "finite best description length Prel(k) = E(k) / sum E, finite, non-negative, zero for suppressed rows, sum E >= 1 and sum Prel = 1 (ghost functions carry the "
+            "witness of `in` through the loop; sums by the induction-proved lemma library). The case of a non-finite best DL is outside R3's precondition (known finding "
+            "c06:prel:top-dl-minus-inf). The per-rank file concatenation and the file round trip between the regions are decided by the bounded stand-in only (synthetic "
+            "tables with NaN/inf/ties, 1-4 ranks, through the real combine stage), which is not counted as proved.",
     "note": "A-float; numpy models for boolean-mask/fancy indexing, nanmin/nanargmin (first minimum among non-NaN), vstack/transpose, sorted(key) (stable permutation), "
             "linspace(0,n-1,n).astype(int) = identity are assumed (A-ext) and exercised by the bounded runs; counting lemmas for masks assumed. File round trip between R1 and R2 "
             "(savetxt/cat/genfromtxt) is outside the regions (A-shell, bounded).",
     "technique": "contract-based deductive verification of code regions (AST->VC->SMT) + bounded stand-in on synthetic tables",
 }
-CHECKER = "./bin/check C06 (pyvc on esr/fitting/combine_DL.py::main regions R1, R2 -> z3)"
+CHECKER = "./bin/check C06 (pyvc on esr/fitting/combine_DL.py::main regions R1, R2, R3 -> z3)"
 
 
 def check(run):
+    D.lemma_library(run)
     failed_all = []
-    for mk in (C.r1_contract, C.r2_contract):
+    for mk in (C.r1_contract, C.r2_contract, C.r3_contract):
         st, failed, eng = D.verify_function(run, "fitting/combine_DL.py", "main", mk, timeout_ms=8000,
-                                            note="regions of main(): R1 (loop body over unique functions), R2 (mask/sort/re-index); the rest of main is not under contract")
+                                            note="regions of main(): R1 (loop body over unique functions), R2 (mask/sort/re-index), R3 (duplicate suppression, exp, normalisation); the rest of main is not under contract")
         failed_all += failed
     can = D.canary(run, "fitting/combine_DL.py", "main", C.r1_contract)
     if can is False:
         raise RuntimeError("canary verified: engine vacuous on combine_DL R1")
+    if D.canary(run, "fitting/combine_DL.py", "main", C.r3_contract) is False:
+        raise RuntimeError("canary verified: engine vacuous on combine_DL R3")
     from checks import _wrap
     found, B = _wrap.run_bounded(run, "checks.C06_bounded")
     _wrap.report_unproved(run, failed_all, found, "combine_DL.main")
